@@ -856,6 +856,7 @@ func (it *Interp) beginPath() {
 	it.fpInt = nil
 	it.fpDiv = nil
 	it.fpLazy = nil
+	it.digitSum = nil
 	it.fmtTimeVals = nil
 }
 
